@@ -3,9 +3,7 @@ import numpy as np
 from hypothesis import strategies as st
 
 import nifty.cl as ift
-from vlib import Discard, Violation, close, require
-from vlib import nx
-from vlib import strat as S
+from vlib import close, require
 
 from . import _c02_common as C
 
